@@ -146,6 +146,11 @@ def W.wrapMark (pre : Bool) (id : Nat) (children : W) : W :=
 
 def W.int (i : Int) : W := W.ret (pushint i)
 
+/-- a pointer that must not be NULL when its flag is set (`def->name`, `def->source`) -/
+def W.optVal (g : Val → W) : Option Val → W
+  | some v => g v
+  | none => W.fail
+
 /-- source map: `pushint(line - current); pushint(column); current = line` -/
 def smBytes : Int → List (Int × Int) → List Nat
   | _, [] => []
@@ -164,6 +169,20 @@ def intsBytes : List Int → List Nat
   | [] => []
   | i :: is => pushint i ++ intsBytes is
 
+/-- body of `marshal_one_def` after the funcdef has been pushed on `seen_defs`; `g` = `marshal_one(…, flags + 1)`,
+`gd` = `marshal_one_def(…, flags + 1)` -/
+def marshalDefBody (g : Val → W) (gd : Nat → W) (df : Def) : W :=
+  W.seq (W.ret (defHeader df))
+  (W.seq (if hasFlag df.flags fdHasName then W.optVal g df.name else W.ret [])
+  (W.seq (if hasFlag df.flags fdHasSource then W.optVal g df.source else W.ret [])
+  (W.seq (W.list g df.constants)
+  (W.seq (W.list (fun (s : SymEntry) => W.seq (W.ret (pushint s.birth ++ (pushint s.death ++ pushint s.slot))) (g s.sym)) df.symbolmap)
+  (W.seq (W.ret (u32s df.bytecode))
+  (W.seq (W.ret (intsBytes df.environments))
+  (W.seq (W.list gd df.defs)
+  (W.seq (W.ret (if hasFlag df.flags fdHasSourceMap then smBytes 0 df.sourcemap else []))
+         (W.ret (if hasFlag df.flags fdHasCloBitset then u32s df.bitset else []))))))))))
+
 mutual
 /-- `marshal_one` -/
 def marshalC : Nat → Heap → Val → W
@@ -180,10 +199,10 @@ def marshalC : Nat → Heap → Val → W
         | none => none
         | some o =>
           (match o with
-          | .data (.reg name) => W.seq (W.markObj id) (W.ret (lb_registry :: (pushint name.length ++ name)))
-          | .data (.real bs) => W.wrapMark markPreNumber id (W.ret (lb_real :: bs))
-          | .data (.str k bs) => W.wrapMark markPreString id (W.ret (strLead k :: (pushint bs.length ++ bs)))
-          | .data (.buffer bs) => W.wrapMark markPreBuffer id (W.ret (lb_buffer :: (pushint bs.length ++ bs)))
+          | .data (.reg name) => W.lead lb_registry (W.seq (W.markObj id) (W.ret (pushint name.length ++ name)))
+          | .data (.real bs) => W.lead lb_real (W.wrapMark markPreNumber id (W.ret bs))
+          | .data (.str k bs) => W.lead (strLead k) (W.wrapMark markPreString id (W.ret (pushint bs.length ++ bs)))
+          | .data (.buffer bs) => W.lead lb_buffer (W.wrapMark markPreBuffer id (W.ret (pushint bs.length ++ bs)))
           | .data (.array weak items) =>
             W.lead (if weak then lb_array_weak else lb_array) (W.seq (W.int items.length)
               (W.wrapMark markPreArray id (W.list (fun v c => marshalC fuel T v c) items)))
@@ -210,16 +229,7 @@ def marshalDef : Nat → Heap → Nat → W
       match T.defs[di]? with
       | none => none
       | some df =>
-        (W.seq (W.markDef di) (W.seq (W.ret (defHeader df))
-          (W.seq (if hasFlag df.flags fdHasName then (match df.name with | some v => (fun c => marshalC fuel T v c) | none => W.fail) else W.ret [])
-          (W.seq (if hasFlag df.flags fdHasSource then (match df.source with | some v => (fun c => marshalC fuel T v c) | none => W.fail) else W.ret [])
-          (W.seq (W.list (fun v c => marshalC fuel T v c) df.constants)
-          (W.seq (W.list (fun (s : SymEntry) => W.seq (W.ret (pushint s.birth ++ (pushint s.death ++ pushint s.slot))) (fun c => marshalC fuel T s.sym c)) df.symbolmap)
-          (W.seq (W.ret (u32s df.bytecode))
-          (W.seq (W.ret (intsBytes df.environments))
-          (W.seq (W.list (fun sd c => marshalDef fuel T sd c) df.defs)
-          (W.seq (W.ret (if hasFlag df.flags fdHasSourceMap then smBytes 0 df.sourcemap else []))
-                 (W.ret (if hasFlag df.flags fdHasCloBitset then u32s df.bitset else [])))))))))))) c
+        (W.seq (W.markDef di) (marshalDefBody (fun v c => marshalC fuel T v c) (fun sd c => marshalDef fuel T sd c) df)) c
 
 /-- `marshal_one_env` (after `janet_env_maybe_detach`; the early-detach path presents the environment as detached, with
 the values `envWalk` of EnvBitset.lean selects) -/
@@ -351,6 +361,38 @@ def unmarshalEnvWith (g : R Val) : R Nat := fun c data =>
         if offset > 0 then R.map g fun fiber => Env.onstack offset length fiber
         else R.bind (R.guard (length ≠ 0)) fun _ => R.map (R.listN g length) fun vs => Env.detached vs) c data
 
+/-- body of `unmarshal_one_def` after the new funcdef has been pushed on `lookup_defs`; `g` = `unmarshal_one(…, flags + 1)`,
+`gd` = `unmarshal_one_def(…, flags + 1)` -/
+def unmarshalDefBody (g : R Val) (gd : R Nat) (vf : Def → Bool) : R Def :=
+  R.bind R.int fun flags =>
+  R.bind R.nat fun slotcount =>
+  R.bind (R.guard (slotcount ≤ maxSlotcount)) fun _ =>
+  R.bind R.nat fun arity =>
+  R.bind R.nat fun minArity =>
+  R.bind R.nat fun maxArity =>
+  R.bind R.nat fun constantsLength =>
+  R.bind R.nat fun bytecodeLength =>
+  R.bind (R.optNat flags fdHasEnvs) fun environmentsLength =>
+  R.bind (R.optNat flags fdHasDefs) fun defsLength =>
+  R.bind (R.optNat flags fdHasSymbolMap) fun symbolmapLength =>
+  R.bind (if hasFlag flags fdHasName then R.map g some else R.pure none) fun name =>
+  R.bind (if hasFlag flags fdHasSource then R.map g some else R.pure none) fun source =>
+  R.bind (R.listN g constantsLength) fun constants =>
+  R.bind (if hasFlag flags fdHasSymbolMap then
+            R.listN (R.bind R.int fun b => R.bind R.int fun dth => R.bind R.int fun s =>
+              R.map g fun sym => SymEntry.mk b dth s sym) symbolmapLength
+          else R.pure []) fun symbolmap =>
+  R.bind (R.u32s bytecodeLength) fun bytecode =>
+  R.bind (if hasFlag flags fdHasEnvs then
+            R.listN (R.bind R.int fun inh => R.bind (R.guard (decide (-1 ≤ inh))) fun _ => R.pure inh) environmentsLength
+          else R.pure []) fun environments =>
+  R.bind (if hasFlag flags fdHasDefs then R.listN gd defsLength else R.pure []) fun defs =>
+  R.bind (if hasFlag flags fdHasSourceMap then R.sourcemap bytecodeLength 0 else R.pure []) fun sourcemap =>
+  R.bind (if hasFlag flags fdHasCloBitset then R.u32s ((slotcount + 31) / 32) else R.pure []) fun bitset =>
+  let df : Def := ⟨flags, slotcount, arity, minArity, maxArity, name, source, constants, symbolmap, bytecode,
+                   environments, defs, sourcemap, bitset⟩
+  R.bind (R.guard (vf df)) fun _ => R.pure df
+
 mutual
 /-- `unmarshal_one` -/
 def unmarshalC : Nat → (Def → Bool) → R Val
@@ -415,36 +457,7 @@ def unmarshalDef : Nat → (Def → Bool) → R Nat
         | none => none
         | some (idx, r) => if idx < 0 ∨ idx.toNat ≥ c.d then none else some (idx.toNat, r, Out.empty)
       else
-        R.preDef (
-          R.bind R.int fun flags =>
-          R.bind R.nat fun slotcount =>
-          R.bind (R.guard (slotcount ≤ maxSlotcount)) fun _ =>
-          R.bind R.nat fun arity =>
-          R.bind R.nat fun minArity =>
-          R.bind R.nat fun maxArity =>
-          R.bind R.nat fun constantsLength =>
-          R.bind R.nat fun bytecodeLength =>
-          R.bind (R.optNat flags fdHasEnvs) fun environmentsLength =>
-          R.bind (R.optNat flags fdHasDefs) fun defsLength =>
-          R.bind (R.optNat flags fdHasSymbolMap) fun symbolmapLength =>
-          R.bind (if hasFlag flags fdHasName then R.map (fun c d => unmarshalC fuel vf c d) some else R.pure none) fun name =>
-          R.bind (if hasFlag flags fdHasSource then R.map (fun c d => unmarshalC fuel vf c d) some else R.pure none) fun source =>
-          R.bind (R.listN (fun c d => unmarshalC fuel vf c d) constantsLength) fun constants =>
-          R.bind (if hasFlag flags fdHasSymbolMap then
-                    R.listN (R.bind R.int fun b => R.bind R.int fun dth => R.bind R.int fun s =>
-                      R.map (fun c d => unmarshalC fuel vf c d) fun sym => SymEntry.mk b dth s sym) symbolmapLength
-                  else R.pure []) fun symbolmap =>
-          R.bind (R.u32s bytecodeLength) fun bytecode =>
-          R.bind (if hasFlag flags fdHasEnvs then
-                    R.listN (R.bind R.int fun inh => R.bind (R.guard (decide (-1 ≤ inh))) fun _ => R.pure inh) environmentsLength
-                  else R.pure []) fun environments =>
-          R.bind (if hasFlag flags fdHasDefs then R.listN (fun c d => unmarshalDef fuel vf c d) defsLength else R.pure []) fun defs =>
-          R.bind (if hasFlag flags fdHasSourceMap then R.sourcemap bytecodeLength 0 else R.pure []) fun sourcemap =>
-          R.bind (if hasFlag flags fdHasCloBitset then R.u32s ((slotcount + 31) / 32) else R.pure []) fun bitset =>
-          let df : Def := ⟨flags, slotcount, arity, minArity, maxArity, name, source, constants, symbolmap, bytecode,
-                           environments, defs, sourcemap, bitset⟩
-          R.bind (R.guard (vf df)) fun _ => R.pure df) c data
-
+        R.preDef (unmarshalDefBody (fun c d => unmarshalC fuel vf c d) (fun c d => unmarshalDef fuel vf c d) vf) c data
 end
 
 /-- `janet_unmarshal` with a fresh state: value, final lookup tables, number of bytes consumed -/
